@@ -2014,7 +2014,11 @@ fn collect_validator_issues_inner(
     path: &PathKey,
     out: &mut Vec<ValidationIssue>,
 ) {
-    for (field, kind) in errors.errors() {
+    // `ValidationErrors` keeps its fields in a randomly seeded `HashMap`: visit them in a
+    // fixed (name) order so that the same failure always renders the same report.
+    let mut fields: Vec<_> = errors.errors().iter().collect();
+    fields.sort_by(|a, b| a.0.cmp(b.0));
+    for (field, kind) in fields {
         let field_path = path.clone().join(field.as_ref());
         match kind {
             ValidationErrorsKind::Field(entries) => {
@@ -2023,6 +2027,7 @@ fn collect_validator_issues_inner(
                     for (k, v) in &entry.params {
                         params.push((k.to_string(), v.to_string()));
                     }
+                    params.sort();
 
                     out.push(ValidationIssue {
                         path: field_path.clone(),
